@@ -212,6 +212,9 @@ def corpus():
     ]
     for t in (b"A <a>", b"A<a>", b"Joe", b"Joe>", b"<a>", b"A <a> <b>", b"A > <a>", b"", b"A <a", b"> <"):
         out.append({"kind": "fix", "t": t})
+    for m, revid, props in ((b"msg", None, []), (b"msg\n--BZR--\nrevision-id: foo\n", None, []), (b"a\n--BZR--", b"rev-1", [[b"k", b"v"]]),
+                            (b"", b"r", []), (b"x\n--BZR--\nproperty-a: b\n\n--BZR--\nrevision-id: y\n", None, [])):
+        out.append({"kind": "meta", "m": m, "revid": revid, "props": props})
     for t in (b"a\r\nb", b"a\n", b"", b"a\xc2\x85b", b"a\xe2\x80\xa8b\xe2\x80\xa9", b"\n\n", b"a\r", b"\xe2\x80", b"\xc2"):
         out.append({"kind": "lines", "t": t})
     return out
@@ -231,20 +234,33 @@ def cases(rng, tier):
     for n in range(0, (3 if quick else 5)):
         for t in itertools.product(sl_alpha, repeat=n):
             yield {"kind": "lines", "t": bytes(t)}
-    for _ in range(150 if quick else 6000):
+    for _ in range(150 if quick else 3000):
         yield {"kind": "lines", "t": _rbytes(rng, sl_alpha + [0x0c, 0x1d, 0x1e, 0xff, 0x20], 3, 9)}
+    # roundtrip.py: extract_bzr_metadata / inject_bzr_metadata
+    mk_alpha = [b"\n", b"--BZR--", b"-", b"BZR", b"a", b"\n--BZR--\n", b" "]
+    for _ in range(120 if quick else 4000):
+        head = b"".join(rng.choice(mk_alpha) for _ in range(rng.randint(0, 5)))
+        r = rng.random()
+        if r < 0.4:
+            tail = b"\n--BZR--\n" + b"".join(rng.choice([b"revision-id: r%d\n" % rng.randint(0, 9), b"property-k: v\n",
+                                                           b"parent-ids: p q\n", b"testament3-sha1: abc\n"])
+                                             for _ in range(rng.randint(0, 3)))
+        else:
+            tail = b""
+        yield {"kind": "meta", "m": head + tail, "revid": rng.choice([None, b"rev-%d" % rng.randint(0, 99)]),
+               "props": [[b"p%d" % i, rng.choice([b"v", b"x y", b""])] for i in range(rng.randint(0, 2))]}
     # UTF-8 validity boundary: the message decides between utf-8 / latin1 fallback / UnicodeDecodeError
-    for _ in range(250 if quick else 8000):
+    for _ in range(250 if quick else 4000):
         m = _rbytes(rng, U8B, 1, 5)
         yield mk(message=m, encoding=rng.choice([None, None, b"utf-8", b"false"]))
-    for _ in range(60 if quick else 2000):
+    for _ in range(60 if quick else 1000):
         a = b"N" + _rbytes(rng, U8B, 1, 4) + b" <e@x>"
         yield mk(author=a, committer=rng.choice([a, BASE["committer"]]), encoding=rng.choice([None, b"utf-8", b"latin1"]))
     # mostly round-tripping commits
-    for _ in range(450 if quick else 18000):
+    for _ in range(450 if quick else 8000):
         yield _gen_commit(rng, 0.0)
     # commits with the features that break the round trip switched on
-    for _ in range(350 if quick else 14000):
+    for _ in range(350 if quick else 6000):
         yield _gen_commit(rng, 0.35)
 
 
@@ -328,6 +344,8 @@ def impl(inp):
     if inp["kind"] == "lines":
         return [s.encode("utf-8", "surrogateescape")
                 for s in bytes(inp["t"]).decode("utf-8", "surrogateescape").splitlines()]
+    if inp["kind"] == "meta":
+        return _impl_meta(inp)
     m = BzrGitMappingv1()
     c = build_commit(inp)
     try:
@@ -364,7 +382,39 @@ def impl(inp):
     return [raw0, iobs, raw2, info]
 
 
+def _supp_canon(md):
+    if md is None:
+        return None
+    return [md.revision_id, None if md.explicit_parent_ids is None else list(md.explicit_parent_ids),
+            sorted([k, v] for k, v in md.properties.items()), sorted([k, v] for k, v in md.verifiers.items())]
+
+
+def _impl_meta(inp):
+    from breezy.git.roundtrip import CommitSupplement, extract_bzr_metadata, inject_bzr_metadata
+    msg = bytes(inp["m"])
+    try:
+        head, md = extract_bzr_metadata(msg)
+    except ValueError:
+        return Err("ValueError")
+    empty = CommitSupplement()
+    supp = CommitSupplement()
+    supp.revision_id = None if inp["revid"] is None else bytes(inp["revid"])
+    supp.properties = {bytes(k): bytes(v) for k, v in inp["props"]}
+    injected = inject_bzr_metadata(msg, supp, "utf-8")
+    try:
+        back = extract_bzr_metadata(injected)
+        back = [back[0], _supp_canon(back[1])]
+    except ValueError:
+        back = Err("ValueError")
+    return [head, md is not None,
+            {"md": _supp_canon(md), "inject_empty": inject_bzr_metadata(msg, empty, "utf-8"),
+             "inject_none": inject_bzr_metadata(msg, None, "utf-8"), "injected": injected, "back": back,
+             "supp": _supp_canon(supp)}]
+
+
 def impl_obs(inp, obs):
+    if inp["kind"] == "meta" and not isinstance(obs, Err):
+        return obs[:2]
     if isinstance(obs, Err) or inp["kind"] != "commit":
         return obs
     raw0, iobs, raw2, _info = obs
@@ -409,6 +459,8 @@ def model_term(inp):
         return "run_fix_person " + coq_bytes(bytes(inp["t"]))
     if inp["kind"] == "lines":
         return "run_splitlines " + coq_bytes(bytes(inp["t"]))
+    if inp["kind"] == "meta":
+        return "run_meta " + coq_bytes(bytes(inp["m"]))
     e = inp["encoding"]
     return "run_case (env1 %s %s) %s" % (coq_bytes(b"" if e is None else bytes(e)), codec_class(inp), coq_commit(inp))
 
@@ -431,6 +483,8 @@ def well_formed(inp):
 def oracle(inp, obs):
     if inp["kind"] in ("fix", "lines"):
         return None                       # helper functions: correspondence only
+    if inp["kind"] == "meta":
+        return _oracle_meta(inp, obs)
     if isinstance(obs, Err):
         return "driver error " + str(obs)
     raw0, iobs, raw2, info = obs
@@ -450,6 +504,33 @@ def oracle(inp, obs):
         return f"accepted commit does not round-trip: {raw0!r} -> {raw2!r}"
     if not info.get("id_equal"):
         return "same bytes but different id"
+    return None
+
+
+MARK = b"\n--BZR--\n"
+
+
+def _oracle_meta(inp, obs):
+    """roundtrip.py is transparent for git-native messages and inverts its own injection."""
+    if isinstance(obs, Err):
+        return None                       # an unparsable metadata block (not generated on purpose)
+    msg = bytes(inp["m"])
+    head, has_md, x = obs
+    if MARK not in msg and (head != msg or has_md):
+        return f"extract_bzr_metadata changed a message without marker: {msg!r} -> {head!r}, metadata {has_md}"
+    if x["inject_empty"] != msg or x["inject_none"] != msg:
+        return f"inject_bzr_metadata with an empty supplement changed the message {msg!r}"
+    supp = x["supp"]
+    nonempty = bool(supp[0] or supp[2])
+    if not nonempty:
+        if x["injected"] != msg:
+            return "inject_bzr_metadata added an empty metadata block"
+        return None
+    # the marker must not already occur in (or straddle the end of) the message
+    if MARK in msg + MARK[:-1]:
+        return None
+    if isinstance(x["back"], Err) or x["back"][0] != msg or x["back"][1] != supp:
+        return f"extract(inject({msg!r}, {supp!r})) = {x['back']!r}"
     return None
 
 
@@ -492,6 +573,8 @@ def finding_matches(fid, inp, obs, why):
 
 
 def nontrivial(inp, obs):
+    if inp["kind"] == "meta":
+        return MARK in bytes(inp["m"]) or bool(inp["revid"] or inp["props"])
     if inp["kind"] != "commit":
         return len(inp["t"]) > 0
     if isinstance(obs, Err) or isinstance(obs[1], Err):
@@ -501,7 +584,7 @@ def nontrivial(inp, obs):
 
 
 def distribution(inputs, observations):
-    d = {"fix": 0, "lines": 0, "commit": 0, "not_serialisable": 0, "import_rejected": {}, "accepted": 0,
+    d = {"fix": 0, "lines": 0, "meta": 0, "commit": 0, "not_serialisable": 0, "import_rejected": {}, "accepted": 0,
          "roundtrip_ok": 0, "roundtrip_failed": 0, "codec": {}, "with_gpgsig": 0, "with_mergetag": 0, "with_extra": 0,
          "neg_utc": 0, "author_ne_committer": 0, "missing_message": 0, "implicit_latin1": 0}
     for i, o in zip(inputs, observations):
